@@ -407,6 +407,21 @@ def case_text(ops_text, case_header):
     return "\n".join(out) + "\n"
 
 
+def context_text(ops_text, case_header, k):
+    """The case with the (up to) k cases that were run before it in the same process."""
+    cases, cur = [], None
+    for l in ops_text.splitlines():
+        if l.startswith("#case"):
+            cur = [l]
+            cases.append(cur)
+        elif cur is not None:
+            cur.append(l)
+    idx = next((i for i, c in enumerate(cases) if c[0] == case_header), None)
+    if idx is None:
+        return case_text(ops_text, case_header)
+    return "\n".join("\n".join(c) for c in cases[max(0, idx - k):idx + 1]) + "\n"
+
+
 def still_fails(engine, text, prop, kind):
     r = compare(engine, text, prop)
     if "fatal" in r:
@@ -542,6 +557,9 @@ def known_findings(prop):
 # them differs from the text the models were written against (anchors.json), the quick tier of that
 # engine is followed by a larger run of the thorough generator: the tie is re-validated harder on
 # exactly the code that moved.
+# Engines whose cases read the real clock (a failure that does not repeat on its own is a scheduling hiccup)
+REALTIME_ENGINES = {"lru", "handler", "ipvote", "kbucket"}
+
 ENGINE_FILES = {
     "packet": ["src/packet/"],
     "rpc": ["src/rpc.rs"],
@@ -681,6 +699,7 @@ def check(prop, tier, seed, replay=None):
     # 5b. confirm every failing case by re-running it in isolation (real-time engines can be
     # disturbed by scheduling hiccups; a failure that does not reproduce is recorded, not reported)
     flaky = 0
+    repro_text = {}
     if not replay:
         def reproduces(eng, text, kind):
             # twice in a row, on its own: a scheduling hiccup does not repeat, a violation does
@@ -692,7 +711,9 @@ def check(prop, tier, seed, replay=None):
         def confirm(items, case_of, kind):
             """Re-runs failing cases in isolation until one reproduces (then the rest is accepted as
             found); cases that do not reproduce are dropped; after 24 attempts without a single
-            reproduction nothing of this kind is reported."""
+            reproduction nothing of this kind is reported.  A case that fails only after the cases
+            that ran before it in the same process (the implementation keeps state between what should
+            be independent operations) is re-run with those: the replay then holds them as well."""
             nonlocal flaky
             verdicts, any_ok, attempts, out = {}, False, 0, []
             for it in items:
@@ -706,6 +727,14 @@ def check(prop, tier, seed, replay=None):
                     else:
                         attempts += 1
                         verdicts[key] = reproduces(eng, case_text(ops, case), kind)
+                        if not verdicts[key] and attempts <= 6 and eng not in REALTIME_ENGINES:
+                            for k in (1, 4, 16):
+                                ctx = context_text(ops, case, k)
+                                if reproduces(eng, ctx, kind):
+                                    verdicts[key] = True
+                                    repro_text[key] = ctx
+                                    verdict["notes"].append("a failing case of %s reproduces only after the %d case(s) run before it in the same process" % (eng, k))
+                                    break
                         any_ok = any_ok or verdicts[key]
                 if verdicts[key]:
                     out.append(it)
@@ -735,7 +764,10 @@ def check(prop, tier, seed, replay=None):
                 out_lines.append("KNOWN-FINDING: property=%s %s" % (prop, known[0].get("what", sig)))
                 continue
             ct = case_text(ops, mcase) if mcase.startswith("#case") and not replay else ops
-            ct = ddmin(eng, ct, prop, "monitor") if not replay else ct
+            if (eng, mcase) in repro_text:
+                ct = repro_text[(eng, mcase)]  # several cases: kept as they are
+            else:
+                ct = ddmin(eng, ct, prop, "monitor") if not replay else ct
             head, _, rest = ct.partition("\n")
             path = write_replay(prop, "%s-impl-%s" % (eng, re.sub(r"\W+", "_", sig)[:40]),
                                 "%s engine=%s monitor=%s\n%s" % (head, eng, sig, rest))
